@@ -25,6 +25,8 @@ type Engine struct {
 	modBusy   map[*ssa.Function]bool
 	assumed   map[string]bool
 	ghostDefs []ghostDef
+	refNames  map[string][]nameEntry       // claims/names.json: recorded variable skeletons of the reference tree
+	renames   map[string]map[string]string // per function: recorded name -> current name (renamed locals)
 }
 
 func NewEngine(env *core.Env, p *load.Program) *Engine {
